@@ -337,8 +337,15 @@ def run_property(prop, modname, tier, seed, level="exploration", min_nontrivial=
     if n == 1:
         dumps = [_run_shard((modname, ctx, 0, 1))]
     else:
-        with multiprocessing.Pool(min(n, NPROC)) as pool:
-            dumps = pool.map(_run_shard, [(modname, ctx, i, n) for i in range(n)], chunksize=1)
+        # ProcessPoolExecutor (unlike multiprocessing.Pool) notices a worker process that died
+        # (e.g. killed by the OOM killer) instead of waiting for its result forever
+        import concurrent.futures
+        try:
+            with concurrent.futures.ProcessPoolExecutor(max_workers=min(n, NPROC)) as pool:
+                dumps = list(pool.map(_run_shard, [(modname, ctx, i, n) for i in range(n)], chunksize=1))
+        except concurrent.futures.process.BrokenProcessPool as e:
+            print("HARNESS-ERROR property=%s a driver process died (%s); not a verdict" % (prop, e))
+            return 2
     errors = [d for d in dumps if "error" in d]
     if errors:
         print("HARNESS-ERROR property=%s shard=%s\n%s" % (prop, errors[0]["shard"], errors[0]["error"]))
